@@ -82,6 +82,15 @@ class TokenStream:
             """<str as Index<Range<usize>>>::index(input, range): text identity is a function of the span."""
             eng_ = ctx.eng
             r = ctx.args[1]
+            if "RangeFrom" in ctx.callee:
+                # text[k..]: identity is a function of the text it is cut from and of k
+                from ..itermodels import str_id, _str_node
+                base = str_id(eng_, _str_node(eng_, ctx.args[0]))
+                k = eng_.scalar(eng_.field(r, 0, "usize"))
+                g = z3.Function("text_from", BV64, BV64, BV64)
+                sn = Node(fresh_root("str"), ty="str")
+                sn.fields = {"sid": mk_scalar(g(base, k), "u64")}
+                return ctx.ret(mk_ref(sn, "&str"))
             s = eng_.scalar(eng_.field(r, 0, "usize"))
             e = eng_.scalar(eng_.field(r, 1, "usize"))
             f = z3.Function("text_of_span", BV64, BV64, BV64)
